@@ -190,12 +190,12 @@ func proto(version int) protocol.Protocol {
 
 type specFrame struct {
 	typ, verify, gzip, reserve, cmd int
-	rid                            uint32
-	to                             uint16
-	st                             uint8
-	md, body                       []byte
-	nonce                          uint64
-	sig                            []byte
+	rid                             uint32
+	to                              uint16
+	st                              uint8
+	md, body                        []byte
+	nonce                           uint64
+	sig                             []byte
 }
 
 func specEncode(version int, f specFrame) []byte {
